@@ -8,6 +8,8 @@ def run(ctx):
     findings = load_findings('C12')
     translate(ctx, ['key'])
     lean_props(ctx)
+    from checks import C02 as c02mod
+    c02mod.key_tie(ctx, findings, 1500, 1500, own_property=False, relevant=lambda f: 'family=digest' in f['detail'])   # C12: two compiler digests must never share a key
     if cargo_harness(ctx, ['h_memo']):
         w = ctx.work; e = env_offline(); e['VERIF_SEED'] = str(ctx.seed)
         n = 30 if ctx.quick() else 1500
